@@ -84,6 +84,10 @@ type ClaimIn struct {
 	Taints  []Taint `json:"taints"`  // spec.taints
 	Res     int     `json:"res"`     // 0: no extended resource requested, 1: requested (non-zero), 2: requested with quantity 0
 	Pool    bool    `json:"pool"`    // owned by a NodePool (label + owner reference)
+	// Ps: the NodePool the label names, when it is not simply there: "gone" = label and owner reference but no such
+	// NodePool (deleted while the NodeClaim is still around), "other" = a NodePool of that name with another UID (deleted
+	// and re-created: the owner reference no longer matches). "" with Pool: the NodePool exists and owns the NodeClaim.
+	Ps string `json:"ps,omitempty"`
 	Fin     bool    `json:"fin"`     // termination finalizer already present when the history starts
 }
 
@@ -99,6 +103,9 @@ type Step struct {
 	Rs     string  `json:"rs,omitempty"`    // ... unless given here: T | F | U (Unknown) | N (no Ready condition posted yet)
 	Res    bool    `json:"res,omitempty"`
 	Dns    bool    `json:"dns,omitempty"` // karpenter.sh/do-not-sync-taints=true
+	// Dl: the value of the karpenter.sh/do-not-sync-taints label when it is there with something other than "true" (only
+	// "true" opts out): "false", "" (present, empty), "True", "1", ... — nil: see Dns
+	Dl *string `json:"dl,omitempty"`
 	Reg    bool    `json:"reg,omitempty"` // karpenter.sh/registered label already present
 	// stray: a Node that does not belong to this NodeClaim: Pid "" = no provider id (yet), anything else = the id of
 	// some other instance; taints / ready / res as for "node"
@@ -262,6 +269,9 @@ func (p *provider) Create(ctx context.Context, nc *v1.NodeClaim) (*v1.NodeClaim,
 	return out, cerr
 }
 
+// labelled: the NodeClaim carries the karpenter.sh/nodepool label (and an owner reference to that NodePool)
+func (c ClaimIn) labelled() bool { return c.Pool || c.Ps != "" }
+
 func hasFinalizer(fs []string) bool {
 	for _, f := range fs {
 		if f == v1.TerminationFinalizer {
@@ -299,6 +309,8 @@ func kindOf(obj any) (string, schema.GroupResource) {
 		return "nc", schema.GroupResource{Group: "karpenter.sh", Resource: "nodeclaims"}
 	case *corev1.Node, *corev1.NodeList:
 		return "node", schema.GroupResource{Resource: "nodes"}
+	case *v1.NodePool:
+		return "np", schema.GroupResource{Group: "karpenter.sh", Resource: "nodepools"}
 	}
 	return "", schema.GroupResource{}
 }
@@ -349,7 +361,7 @@ func newWorld(in ClaimIn) *world {
 		nc.Finalizers = []string{v1.TerminationFinalizer}
 	}
 	objs := []client.Object{nc}
-	if in.Pool {
+	if in.labelled() {
 		np := &v1.NodePool{
 			ObjectMeta: metav1.ObjectMeta{Name: poolName, UID: poolUID, CreationTimestamp: metav1.NewTime(t0)},
 			Spec: v1.NodePoolSpec{Template: v1.NodeClaimTemplate{Spec: v1.NodeClaimTemplateSpec{
@@ -359,7 +371,16 @@ func newWorld(in ClaimIn) *world {
 		}
 		nc.Labels[v1.NodePoolLabelKey] = poolName
 		nc.OwnerReferences = []metav1.OwnerReference{{APIVersion: "karpenter.sh/v1", Kind: "NodePool", Name: poolName, UID: poolUID}}
-		objs = append(objs, np)
+		switch in.Ps {
+		case "":
+			objs = append(objs, np)
+		case "other":
+			np.UID = poolUID + "-recreated"
+			objs = append(objs, np)
+		case "gone":
+		default:
+			panic(fmt.Sprintf("bad pool state %q", in.Ps))
+		}
 	}
 	_ = v1alpha1.Group // make sure the test node class is registered in the scheme (package init)
 	w.base = fake.NewClientBuilder().WithScheme(smallScheme).
@@ -369,7 +390,7 @@ func newWorld(in ClaimIn) *world {
 	w.cl = interceptor.NewClient(w.base, interceptor.Funcs{
 		Patch: func(ctx context.Context, c client.WithWatch, obj client.Object, p client.Patch, opts ...client.PatchOption) error {
 			k, gr := kindOf(obj)
-			if k == "" {
+			if k == "" || k == "np" {
 				return c.Patch(ctx, obj, p, opts...)
 			}
 			site := k + ".patch"
@@ -380,7 +401,7 @@ func newWorld(in ClaimIn) *world {
 		},
 		SubResourcePatch: func(ctx context.Context, c client.Client, sub string, obj client.Object, p client.Patch, opts ...client.SubResourcePatchOption) error {
 			k, gr := kindOf(obj)
-			if k == "" {
+			if k == "" || k == "np" { // the NodePool's registration-health condition is C20's subject
 				return c.SubResource(sub).Patch(ctx, obj, p, opts...)
 			}
 			site := k + "." + sub
@@ -391,10 +412,18 @@ func newWorld(in ClaimIn) *world {
 		},
 		Delete: func(ctx context.Context, c client.WithWatch, obj client.Object, opts ...client.DeleteOption) error {
 			k, gr := kindOf(obj)
-			if k == "" {
+			if k == "" || k == "np" {
 				return c.Delete(ctx, obj, opts...)
 			}
 			return w.do(k+".delete", gr, obj.GetName(), func() error { return c.Delete(ctx, obj, opts...) })
+		},
+		// the NodePool read of updateNodePoolRegistrationHealth (registration.go, liveness.go): part of the call log
+		Get: func(ctx context.Context, c client.WithWatch, key client.ObjectKey, obj client.Object, opts ...client.GetOption) error {
+			k, gr := kindOf(obj)
+			if k != "np" {
+				return c.Get(ctx, key, obj, opts...)
+			}
+			return w.do("np.get", gr, key.Name, func() error { return c.Get(ctx, key, obj, opts...) })
 		},
 		List: func(ctx context.Context, c client.WithWatch, list client.ObjectList, opts ...client.ListOption) error {
 			k, _ := kindOf(list)
@@ -517,6 +546,9 @@ func (w *world) env(s Step) error {
 		if s.Dns {
 			n.Labels[v1.NodeDoNotSyncTaintsLabelKey] = "true"
 		}
+		if s.Dl != nil {
+			n.Labels[v1.NodeDoNotSyncTaintsLabelKey] = *s.Dl
+		}
 		if s.Reg {
 			n.Labels[v1.NodeRegisteredLabelKey] = "true"
 		}
@@ -589,6 +621,11 @@ func (w *world) env(s Step) error {
 		})
 	case "adv":
 		w.clk.Step(time.Duration(s.Secs) * time.Second)
+	case "pooldel": // the NodePool is deleted (its NodeClaims are still around until garbage collection gets to them)
+		np := &v1.NodePool{}
+		if err := w.base.Get(w.ctx, types.NamespacedName{Name: poolName}, np); err == nil {
+			return client.IgnoreNotFound(w.base.Delete(w.ctx, np))
+		}
 	case "del":
 		if cur := w.serverClaim(); cur != nil {
 			return client.IgnoreNotFound(w.base.Delete(w.ctx, cur))
